@@ -75,6 +75,10 @@ def falsy_zero_lint(model, rep, R, unit_filter, func_filter=None, witness=None):
                 first_rebind = None
                 for node in walk_no_nested(fn):
                     if isinstance(node, ast.Assign) and any(isinstance(t, ast.Name) and t.id == p for t in node.targets):
+                        v = node.value
+                        # as_bool(None) is None and as_bool(False) is False: the value is still "optional" afterwards
+                        if isinstance(v, ast.Call) and ast.unparse(v.func).split(".")[-1] == "as_bool" and v.args and isinstance(v.args[0], ast.Name) and v.args[0].id == p:
+                            continue
                         first_rebind = min(first_rebind or node.lineno, node.lineno)
                 for node in walk_no_nested(fn):
                     t = None
